@@ -287,14 +287,50 @@ class Session:
         vals = dyn.gen_values(op["vals"], self.uspec, [op["el"]]) if kind == "numpy" else {}
         ic = dyn.numeric_init(self.U, vals, False).get(el) if kind == "numpy" else None
         try:
-            el.init_vars(init_conditions=ic, engine=eng)
+            if op.get("reinit", True):
+                el.init_vars(init_conditions=ic, engine=eng)
             if op.get("step") and el.states is not None:
                 el.step(net=self.net, engine=eng, **dyn.step_kwargs(op["opts"]))
+                if kind == "numpy":
+                    self.check_element_step(op, el, eng, i)
+        except Violation:
+            raise
         except Exception as e:  # mixed engines among neighbours may legitimately fail
             self.last_sym = None
             return type(e).__name__
         self.last_sym = None
         return "ok"
+
+    def check_element_step(self, op, el, eng, i):
+        """Element-level repeatability: when every variable in the network is numeric, the next
+        state an element computes through its own step() equals what the same element of a
+        never-used twin computes after being initialised with copies of the current values --
+        whatever was stepped on this element before (e.g. a second step without re-initialising)."""
+        cur = {}
+        for e2 in self.net.elements:
+            d = {}
+            for grp in ("states", "actions", "disturbances"):
+                for k, v in (getattr(e2, grp) or {}).items():
+                    if not isinstance(v, (np.ndarray, np.generic, float, int)):
+                        return  # some neighbour holds symbols: nothing to compare against
+                    d[k] = np.array(v, copy=True) if isinstance(v, np.ndarray) else v
+            cur[self.U.label(e2)] = d
+        U2, net2 = dyn.build(self.uspec, self.build_ops)
+        eng2 = make_engine("numpy", "empty")
+        try:
+            for e2 in net2.elements:
+                e2.init_vars(init_conditions=cur.get(U2.label(e2)) or None, engine=eng2)
+            tw = U2.obj(op["el"])
+            tw.step(net=net2, engine=eng2, **dyn.step_kwargs(op["opts"]))
+        except Exception:
+            return
+        a = {k: dyn.numeric_bytes(v) for k, v in el.next_states.items()}
+        b = {k: dyn.numeric_bytes(v) for k, v in tw.next_states.items()}
+        if a != b:
+            raise Violation("C12/not-repeatable:element-step",
+                            f"op#{i} {op['el']}.step: next state differs from the same element step on a never-used twin "
+                            "initialised with the current values")
+        self.res.probes["element_step_twin_compared"] += 1
 
     def run(self):
         M = self.M
@@ -468,7 +504,8 @@ def generate(prop: str, run_seed: int, tier: str = "quick") -> dict:
         elif r < 0.90 and "elem" in enabled:
             ops.append({"op": "elem", "el": rng.choice([x for x in refs if x[0] in "lo"]),
                         "eng": "numpy" if cfg["numpy_only"] else rng.choice(ENG_KINDS),
-                        "vals": rng.getrandbits(32), "step": rng.random() < 0.6, "opts": dyn.gen_opts(rng, allow_delta=False)})
+                        "vals": rng.getrandbits(32), "step": rng.random() < 0.7, "reinit": rng.random() < 0.6,
+                        "opts": dyn.gen_opts(rng, allow_delta=False)})
         elif "sibling" in enabled:
             s = gen_step(rng, cfg, allow_fault=False, tier=tier)
             s["op"] = "sibling_step"
